@@ -5,6 +5,7 @@ use std::io::{self, BufRead, Write};
 
 mod alloc;
 mod cell;
+mod svec;
 mod tape;
 mod dump;
 mod vio;
@@ -26,6 +27,7 @@ fn main() {
         let res = match fields[0] {
             "cell" => cell::run(&fields[1..]),
             "tape" => tape::run(&fields[1..]),
+            "svec" => svec::run(&fields[1..]),
             "tapefail" => tape::run_fail(&fields[1..]),
             "run" => run::run(&fields[1..]),
             "runfail" => run::runfail(&fields[1..]),
